@@ -132,6 +132,8 @@ pub fn dedent(s: &str) -> String {
         {
             prefix = &line[..whitespace_idx];
         }
+        #[cfg(feature = "verif-hooks")]
+        crate::verif::emit("dedent.narrow", &[crate::verif::n(prefix.len())]);
     }
 
     #[cfg(feature = "verif-hooks")]
